@@ -358,6 +358,15 @@ impl<'a> Run<'a> {
                     st.into()
                 }
             },
+            // observation only (not generated, not modelled): the database inside the managed root
+            "opendb" if w.len() == 3 => {
+                if self.live.is_some() {
+                    "bad".into()
+                } else {
+                    self.db = real_path(&self.base, w[2]);
+                    if self.open(w[1]) { "ok".into() } else { "openerr".into() }
+                }
+            }
             "open" if w.len() >= 2 => {
                 if self.live.is_some() {
                     "bad".into()
